@@ -245,7 +245,9 @@ def main():
         code = rng.choice([0x002F, 0xC02F, 0xC030, 0x009C, 0xCCA8, 0x003C, 0x000A, 0xC0AC])
         from ref import iana_ref, tls_ref
         vers = [v for v in tls_ref.valid_versions(code, iana_ref.denote(table[code])) if v != "TLS13"]
-        conns.append(pool.tls_conn(rng, table, hist, idx=k + 1, code=code, ver=rng.choice(vers), nrec=4, reclen=rng.choice([100, 300]), schedule="records"))
+        srv = pool.tls_conn(rng, table, hist, idx=k + 1, code=code, ver=rng.choice(vers), nrec=4, reclen=rng.choice([100, 300]), schedule="records")
+        srv.short_target = True
+        conns.append(srv)
         # always one TLS 1.3 connection (four key-log lines; target of two of the three drop-one-line faults)
         t13 = pool.tls_conn(rng, table, hist, idx=k + 4, code=rng.choice([0x1301, 0x1302, 0x1303]), ver="TLS13", nrec=rng.choice([2, 5]), reclen=rng.choice([40, 300]),
                             schedule=rng.choice(["records", "whole", "mss"]))
@@ -266,7 +268,7 @@ def main():
                     continue
                 victim = tl[0]
             if fault == "short-record":
-                victim = conns[-1]
+                victim = next(c for c in conns if getattr(c, "short_target", False))
             if fault == "drop-one-line":
                 many = [c for c in conns if len([l for l in c.s.keylog.split("\n") if l]) > 1]     # TLS 1.3 and QUIC connections have several lines
                 victim = rng.choice(many) if many else victim
